@@ -1116,8 +1116,8 @@ func (s *Server) publishToClient(cl *Client, sub packets.Subscription, pk packet
 
 	if out.FixedHeader.Qos > 0 {
 		if cl.State.Inflight.Len() >= int(s.Options.Capabilities.MaximumInflight) {
-			// add hook?
 			atomic.AddInt64(&s.Info.InflightDropped, 1)
+			cl.ops.hooks.OnPublishDropped(cl, pk)
 			s.Log.Warn("client store quota reached", "client", cl.ID, "listener", cl.Net.Listener)
 			return out, packets.ErrQuotaExceeded
 		}
